@@ -302,6 +302,17 @@ func w6ShiftWidth(p *model.Prog, r *report.Result, rule string, floor int, pkgs 
 	for _, fn := range lalFuncsIn(p, pkgs...) {
 		model.EachInstr(fn, func(in ssa.Instruction) {
 			bo, ok := in.(*ssa.BinOp)
+			if ok && bo.Op == token.SHR && isInteger(bo.Type()) {
+				// narrowed before the right shift: uint8(x) >> k keeps none of x's bits above 7
+				if cv, isCv := bo.X.(*ssa.Convert); isCv && isInteger(cv.X.Type()) && typeBits(cv.Type()) < typeBits(cv.X.Type()) {
+					if k, isK := model.ConstInt(bo.Y); isK && k > 0 {
+						n++
+						src := maxBits(cv.X, 0)
+						r.Check(src <= typeBits(cv.Type()), rule, fkey(fn, "shr-after-narrowing", fmt.Sprintf("%dbits>>%d", typeBits(cv.Type()), k)), p.InstrPos(bo), "nothing cut off before the shift", fmt.Sprintf("a value of up to %d significant bits is converted to %d bits and only then shifted right by %d: the bits the shift was to bring down are already gone (a 13-bit AU size written as size mod 256: every AAC frame of 256 bytes or more is announced too short)", src, typeBits(cv.Type()), k))
+					}
+				}
+				return
+			}
 			if !ok || bo.Op != token.SHL || !isInteger(bo.Type()) {
 				return
 			}
@@ -1069,7 +1080,7 @@ func w6LockPairing(p *model.Prog, r *report.Result, rule string) {
 func w6Counterpart(p *model.Prog, r *report.Result, prop string) {
 	rule := prop + ".PAIR"
 	files := propAnchorFiles[prop]
-	r.Rule(rule, "in the files this property is anchored in ("+strings.Join(files, ", ")+"): no plain copy (assignment, struct literal field, argument bound to a named parameter) takes its value from the counterpart of what its target is named after - target name carries one word of read/wrote, audio/video, pts/dts, sps/pps/vps, pub/sub, pull/push, rtp/rtcp, in/out, first/last, width/height, src/dst, local/remote, min/max, begin/end, start/stop, key/value; source name carries the other word and not the target's - while a value of the same type named after the target's word is in scope. Decided on the type-checked syntax; arithmetic is not judged, nor is a bare `dts` set from a pts value (a PES that carries no DTS)")
+	r.Rule(rule, "in the files this property is anchored in ("+strings.Join(files, ", ")+"): no plain copy (assignment, struct literal field, argument bound to a named parameter) takes its value from the counterpart of what its target is named after - target name carries one word of read/wrote, audio/video, pts/dts, sps/pps/vps, pub/sub, pull/push, rtp/rtcp, in/out, first/last, width/height, src/dst, local/remote, min/max, begin/end, start/stop, key/value; source name carries the other word and not the target's - while a value of the same type named after the target's word is in scope; nor does an if-statement test X while its block works on X's twin (the same name with the pair word exchanged, same type) and never mentions X. Decided on the type-checked syntax; arithmetic is not judged, nor is a bare `dts` set from a pts value (a PES that carries no DTS)")
 	n := 0
 	for _, h := range CounterpartHits(p) {
 		in := false
